@@ -1147,6 +1147,62 @@ fn main() {
         }
         std::process::exit(0);
       }
+      "split_frame_maxmsg" => {
+        // split_frame_maxmsg <maxmsg> <payload_len> <cut>: public API, PULL listener with MAXMSGSIZE; a raw PUSH peer completes
+        // the handshake, writes the first <cut> bytes of ONE data frame, 200 ms later the rest, and stays connected.
+        let maxmsg: i64 = it.next().unwrap().parse().unwrap();
+        let plen: usize = it.next().unwrap().parse().unwrap();
+        let cut: usize = it.next().unwrap().parse().unwrap();
+        let rt = tokio::runtime::Builder::new_multi_thread().worker_threads(2).enable_all().build().unwrap();
+        let res = rt.block_on(async move {
+          use std::io::{Read, Write};
+          let ctx = rzmq::Context::new().unwrap();
+          let pull = ctx.socket(rzmq::SocketType::Pull).unwrap();
+          pull.set_option(rzmq::socket::options::RCVTIMEO, 1500i32).await.unwrap();
+          pull.set_option_raw(rzmq::socket::options::MAXMSGSIZE, &maxmsg.to_ne_bytes()).await.unwrap();
+          pull.bind("tcp://127.0.0.1:0").await.unwrap();
+          let ep = String::from_utf8(pull.get_option(rzmq::socket::options::LAST_ENDPOINT).await.unwrap()).unwrap();
+          let addr = ep.trim_start_matches("tcp://").to_string();
+          let mut greeting = vec![0xFFu8, 0, 0, 0, 0, 0, 0, 0, 0, 0x7F, 3, 1];
+          let mut mech = b"NULL".to_vec();
+          mech.resize(20, 0);
+          greeting.extend_from_slice(&mech);
+          greeting.push(0);
+          greeting.extend_from_slice(&[0u8; 31]);
+          let mut ready = b"\x05READY\x0bSocket-Type\x00\x00\x00\x04PUSH".to_vec();
+          let mut hs = greeting.clone();
+          hs.push(0x04);
+          hs.push(ready.len() as u8);
+          hs.append(&mut ready);
+          let peer = tokio::task::spawn_blocking(move || {
+            let mut s = std::net::TcpStream::connect(addr).unwrap();
+            s.set_nodelay(true).ok();
+            s.write_all(&hs).unwrap();
+            let mut buf = [0u8; 64];
+            let _ = s.read_exact(&mut buf);
+            let mut hdr = [0u8; 2];
+            let _ = s.read_exact(&mut hdr);
+            let mut body = vec![0u8; hdr[1] as usize];
+            let _ = s.read_exact(&mut body);
+            std::thread::sleep(Duration::from_millis(300));
+            let mut frame = vec![0x00u8, plen as u8];
+            frame.extend(std::iter::repeat(0x6Du8).take(plen));
+            let c = cut.min(frame.len());
+            let _ = s.write_all(&frame[..c]);
+            std::thread::sleep(Duration::from_millis(200));
+            let _ = s.write_all(&frame[c..]);
+            std::thread::sleep(Duration::from_millis(1800));
+          });
+          let got = pull.recv().await.map(|m| m.size());
+          let _ = peer.await;
+          got
+        });
+        match res {
+          Ok(n) => println!("split_frame_maxmsg delivered {} bytes", n),
+          Err(e) => println!("split_frame_maxmsg NOT delivered: {:?}", e),
+        }
+        std::process::exit(0);
+      }
       "last_message_then_close" => {
         // public API only: a PULL socket listens on TCP; a raw PUSH peer completes the handshake, later writes <n> data
         // frames in one write and closes the connection at once (data and FIN reach the reader together).
